@@ -582,5 +582,8 @@ func runC12(c *kit.Ctx) {
 		}
 	}
 	c12RunWSP(c, env)
+	if c.Shard == 0 {
+		c12Multicast(c, env)
+	}
 	c.Note("exhaustive", false)
 }
